@@ -62,10 +62,10 @@ def shards(tier):
                                 "slice": [i, k]})
     out.append({"buf": 8192, "kind": "vhdx-locate"})
     for buf in bufs[:2] if q else bufs:
-        for mech in ("vmdk-hosted", "vmdk-sesparse", "vmdk-multi", "hdd", "hdd-top", "hdd-topdefault", "hdd-plainbase",
-                     "qcow2", "qcow2-ext", "vdi", "vdi-mixed"):
+        for mech in ("vmdk-hosted", "vmdk-sesparse", "vmdk-multi", "hdd", "hdd-top", "hdd-topdefault", "hdd-plainbase", "hdd-split",
+                     "qcow2", "qcow2-ext", "vdi", "vdi-mixed", "vdi-mixed-up"):
             for depth in (1, 2, 3):
-                if mech == "vdi-mixed" and depth == 1:
+                if mech.startswith("vdi-mixed") and depth == 1:
                     continue
                 W = 3 if depth < 3 else 2
                 if not q and depth == 3 and mech in ("vdi", "qcow2", "vmdk-hosted"):
@@ -410,18 +410,19 @@ def _case_vhdx_locate(case, ctx, d):
 
 # ---- generic depth-1..3 chains for VMDK / Parallels / QCOW2 / VDI -------------------------------------------------------
 ALPHA = {"vmdk-hosted": [HOLE, ZERO, DATA], "vmdk-sesparse": [HOLE, ZERO, "F", DATA], "vmdk-multi": [HOLE, ZERO, DATA],
-         "hdd": [HOLE, DATA], "hdd-top": [HOLE, DATA], "hdd-topdefault": [HOLE, DATA], "hdd-plainbase": [HOLE, DATA],
+         "hdd-split": [HOLE, DATA], "hdd": [HOLE, DATA], "hdd-top": [HOLE, DATA], "hdd-topdefault": [HOLE, DATA], "hdd-plainbase": [HOLE, DATA],
          "qcow2": ["U", "Z", "N", "C"], "qcow2-ext": ["u", "a", "z"], "vdi": [HOLE, ZERO, DATA],
-         "vdi-mixed": [HOLE, ZERO, DATA]}
-UNIT = {"vmdk-hosted": 4096, "vmdk-sesparse": 4096, "vmdk-multi": 4096, "hdd": 4096, "hdd-top": 4096,
+         "vdi-mixed": [HOLE, ZERO, DATA], "vdi-mixed-up": [HOLE, ZERO, DATA]}
+UNIT = {"hdd-split": 4096, "vmdk-hosted": 4096, "vmdk-sesparse": 4096, "vmdk-multi": 4096, "hdd": 4096, "hdd-top": 4096,
         "hdd-topdefault": 4096, "hdd-plainbase": 4096, "qcow2": 4096, "qcow2-ext": 512,
-        "vdi": 4096, "vdi-mixed": 4096}
+        "vdi": 4096, "vdi-mixed": 4096, "vdi-mixed-up": 4096}
 
 
-def _mixed_layer(st, k, unit):
-    """vdi-mixed: the layers of one chain use different block sizes (2x, 1x, 1/2x the unit, rotating); the W state tokens of
-    a layer are laid over its own blocks (4 units of guest data)."""
-    bs = (2 * unit, unit, unit // 2)[k % 3]
+def _mixed_layer(st, k, unit, up=False):
+    """vdi-mixed: the layers of one chain use different block sizes (2x, 1x, 1/2x the unit going up the chain; vdi-mixed-up:
+    1/2x, 1x, 2x, i.e. every parent has smaller blocks than its child); the W state tokens of a layer are laid over its own
+    blocks (4 units of guest data)."""
+    bs = ((unit // 2, unit, 2 * unit) if up else (2 * unit, unit, unit // 2))[k % 3]
     n = 4 * unit // bs
     toks = list(st) + list(st)[::-1] + list(st)
     return bs, [toks[(j * 5 + k) % len(toks)] if n > len(st) else toks[j] for j in range(n)]
@@ -466,11 +467,11 @@ def _case_chain(case, ctx, d, cache):
     size = W * unit
     # reference model: fold top-down
     disk = None
-    if mech == "vdi-mixed":
+    if mech.startswith("vdi-mixed"):
         size = 4 * unit
         W = 4
         for k, st in enumerate(layers):
-            bs, sts = _mixed_layer(st, k, unit)
+            bs, sts = _mixed_layer(st, k, unit, mech.endswith("-up"))
             disk = GuestDisk(size, bs, _to_model_states(mech, sts), k + 1, disk)
     elif mech == "qcow2-ext":
         for k, st in enumerate(layers):
@@ -617,6 +618,47 @@ def _open_chain(mech, layers, d, cache, unit):
         guids = [f"{{{k + 1:08x}-0000-4000-8000-000000000000}}" for k in range(depth)]
         if mech != "hdd-top":
             guids[-1] = B.DEFAULT_TOP
+        if mech == "hdd-split":
+            # two storages (units 0..W-2 and unit W-1), every snapshot has an image in both; the views of all snapshots are
+            # opened one after the other on the same HDD object and read across the storage boundary
+            per = [[], []]
+            shots = []
+            for k, st in enumerate(layers):
+                for si, (a, b) in enumerate(((0, W - 1), (W - 1, W))):
+                    part = list(st[a:b])
+                    fn = f"verif.hdd.{si}.{guids[k]}.hds"
+                    key = (mech, k, si, tuple(part), guids[k])
+                    if cache.get(("f", k, si)) != key:
+                        slots = [s + 1 if s is not None else None for s in _slots_for(part, k + si, (DATA,))]
+                        img = B.build_hds(part, slots, spc, 2 if (k + si) % 2 == 0 else 1, len(part) * spc, layer=k + 1)
+                        if a:
+                            img.ext = [(off, kind, ((pl[0], pl[1] + a * unit) if kind == 1 and pl[0] == k + 1 else pl), ln)
+                                       for off, kind, pl, ln in img.ext]
+                        img.write_to(os.path.join(hd, fn))
+                        cache[("f", k, si)] = key
+                    per[si].append((guids[k], "Compressed", fn))
+                shots.append((guids[k], guids[k - 1] if k else B.NULL_GUID))
+            xml = B.descriptor_xml(W * spc, [(0, (W - 1) * spc, per[0][::-1]), ((W - 1) * spc, W * spc, per[1][::-1])], shots[::-1])
+            if cache.get("xml") != xml:
+                with open(os.path.join(hd, "DiskDescriptor.xml"), "w") as f:
+                    f.write(xml)
+                cache["xml"] = xml
+            hdd = HDD(Path(hd))
+            stream = hdd.open()
+            stream._verif_hdd = (hdd, guids)
+
+            def closer2():
+                for _, st_ in getattr(stream, "streams", []):
+                    x, n = st_, 0
+                    while x is not None and n < 6:
+                        try:
+                            getattr(x, "fh", x).close()
+                        except Exception:
+                            pass
+                        x = getattr(x, "parent", None)
+                        n += 1
+
+            return stream, None, closer2
         images = []
         shots = []
         for k, st in enumerate(layers):
@@ -677,14 +719,14 @@ def _open_chain(mech, layers, d, cache, unit):
                                  backing_name=f"l{k - 1}.qcow2" if k else None)
             q = QCow2(img.bytesio(), backing_file=q) if k else QCow2(img.bytesio())
         return q, None, (lambda: None)
-    if mech == "vdi-mixed":
+    if mech.startswith("vdi-mixed"):
         from dissect.hypervisor.disk.vdi import VDI
 
         from mc.builders import vdi as B
 
         v = None
         for k, st in enumerate(layers):
-            bs, sts = _mixed_layer(st, k, unit)
+            bs, sts = _mixed_layer(st, k, unit, mech.endswith("-up"))
             img = B.build(sts, _slots_for(sts, k, (DATA,)), bs, layer=k + 1, image_type=4 if k else 1,
                           parent_uuid=b"\x11" * 16 if k else b"")
             v = VDI(img.bytesio(), parent=v) if k else VDI(img.bytesio())
@@ -732,7 +774,7 @@ def _shard_qsnap(shard, ctx):
                             if at0 and short_l1:
                                 continue
                             for backing in (False, True):
-                                if backing and (short_l1 or not at0):
+                                if backing and not (at0 or short_l1):
                                     continue
                                 _case_qsnap({"kind": "qcow2-snap", "active": list(active), "snaps": [list(s1), list(s2)],
                                              "short_l1": short_l1, "prime": prime, "at0": at0, "backing": backing}, ctx)
